@@ -96,6 +96,48 @@ static __thread FILE* g_f;   /* stream under test */
 static __thread FILE* g_w;   /* side stream for dumps (sbdf_va_write of a value array) */
 static void f_reset(FILE* f) { rewind(f); if (ftruncate(fileno(f), 0)) exit(5); }
 static void f_load(FILE* f, const unsigned char* b, size_t n) { f_reset(f); if (n) fwrite(b, 1, n, f); fflush(f); rewind(f); }
+
+/* `pipe` prefix: the stream under test cannot seek, like a pipe, a socket or stdin: fseek fails
+   with ESPIPE, ftell still answers (so positions stay observable).  pipe=1: buffered, pipe=2: unbuffered. */
+#include <errno.h>
+typedef struct { const unsigned char* b; size_t n, pos; } PipeSrc;
+static __thread int g_pipe;
+static __thread PipeSrc g_ps;
+static __thread FILE* g_ftmp;
+static ssize_t ps_read(void* c, char* buf, size_t sz)
+{
+	PipeSrc* p = c;
+	size_t k = p->n - p->pos;
+	if (k > sz) k = sz;
+	if (k > 4096) k = 4096; /* short reads, as pipes give */
+	memcpy(buf, p->b + p->pos, k);
+	p->pos += k;
+	return (ssize_t)k;
+}
+static int ps_seek(void* c, off64_t* off, int whence)
+{
+	PipeSrc* p = c;
+	if (whence == SEEK_CUR && *off == 0) { *off = (off64_t)p->pos; return 0; }
+	errno = ESPIPE;
+	return -1;
+}
+static void in_open(void)
+{
+	cookie_io_functions_t io = { ps_read, 0, ps_seek, 0 };
+	if (g_f != g_ftmp) fclose(g_f);
+	g_ps.pos = 0;
+	g_f = fopencookie(&g_ps, "r", io);
+	if (!g_f) { perror("fopencookie"); exit(5); }
+	if (g_pipe == 2) setvbuf(g_f, 0, _IONBF, 0);
+}
+/* the bytes a reading scenario starts from / goes back to the start of */
+static void in_load(const unsigned char* b, size_t n)
+{
+	if (!g_pipe) { f_load(g_f, b, n); return; }
+	g_ps.b = b; g_ps.n = n;
+	in_open();
+}
+static void in_rewind(void) { if (g_pipe) in_open(); else rewind(g_f); }
 static unsigned char* f_slurp(FILE* f, size_t* n)
 {
 	long e;
@@ -798,12 +840,12 @@ static void sc_varead(SB* s, Toks* k)
 	unsigned char* b = unhex(nx(k), &l);
 	sbdf_valuearray* rd = (sbdf_valuearray*)(void*)1;
 	long live0 = vf_live;
-	f_load(g_f, b, (size_t)l);
+	in_load(b, (size_t)l);
 	st = sbdf_va_read(g_f, &rd);
 	sb_printf(s, "rd=%d", st);
 	if (st == SBDF_OK) { sb_printf(s, "@%ld:", ftell(g_f)); dump_va(s, rd); sbdf_va_destroy(rd); }
 	else if (rd != (sbdf_valuearray*)(void*)1 && rd != 0) sb_puts(s, "!OUTSET");
-	rewind(g_f);
+	in_rewind();
 	st = sbdf_va_skip(g_f);
 	sb_printf(s, " sk=%d", st);
 	if (st == SBDF_OK) sb_printf(s, "@%ld", ftell(g_f));
@@ -1093,7 +1135,7 @@ static void sc_fr(SB* s, Toks* k, int rewrite)
 	unsigned char* b = unhex(nx(k), &l);
 	const char* subset = nx(k);
 	long live0 = vf_live;
-	f_load(g_f, b, (size_t)l);
+	in_load(b, (size_t)l);
 	read_file(s, (size_t)l, subset, 1, rewrite);
 	sb_printf(s, " live=%ld", vf_live - live0);
 	free(b);
@@ -1297,7 +1339,7 @@ static void sc_fsk(SB* s, Toks* k)
 	unsigned char* b = unhex(nx(k), &l);
 	sbdf_tablemetadata* tm = 0;
 	long live0 = vf_live;
-	f_load(g_f, b, (size_t)l);
+	in_load(b, (size_t)l);
 	st = sbdf_fh_read(g_f, &maj, &min);
 	sb_printf(s, "fh=%d", st);
 	if (!st)
@@ -1334,12 +1376,12 @@ static void sc_oskip(SB* s, Toks* k)
 	long live0 = vf_live;
 	vt.id = (int)nxl(k);
 	b = unhex(nx(k), &l);
-	f_load(g_f, b, (size_t)l);
+	in_load(b, (size_t)l);
 	st = sbdf_obj_read(g_f, vt, &o);
 	sb_printf(s, "rd=%d", st);
 	if (st == SBDF_OK) { sb_printf(s, "@%ld:", ftell(g_f)); dump_obj(s, o); sbdf_obj_destroy(o); }
 	else if (o != (sbdf_object*)(void*)1 && o != 0) sb_puts(s, "!OUTSET");
-	rewind(g_f);
+	in_rewind();
 	st = sbdf_obj_skip(g_f, vt);
 	sb_printf(s, " sk=%d", st);
 	if (st == SBDF_OK) sb_printf(s, "@%ld", ftell(g_f));
@@ -1400,7 +1442,7 @@ static void process_line(char* line, SB* s)
 	while (len > 0 && (line[len - 1] == '\n' || line[len - 1] == '\r')) line[--len] = 0;
 	if (!g_f)
 	{
-		g_f = tmpfile();
+		g_f = g_ftmp = tmpfile();
 		g_w = tmpfile();
 		if (!g_f || !g_w) { perror("tmpfile"); exit(5); }
 	}
@@ -1418,9 +1460,11 @@ static void process_line(char* line, SB* s)
 	kind = nx(&k);
 	/* optional prefixes */
 	long fa = -2, allocs0 = vf_allocs, fired0 = vf_fired;
-	while (!strncmp(kind, "cap=", 4) || !strcmp(kind, "full") || !strncmp(kind, "fa=", 3))
+	g_pipe = 0;
+	while (!strncmp(kind, "cap=", 4) || !strcmp(kind, "full") || !strncmp(kind, "fa=", 3) || !strncmp(kind, "pipe=", 5))
 	{
-		if (kind[0] == 'c') vf_cap = (size_t)strtoul(kind + 4, 0, 10);
+		if (kind[0] == 'p') g_pipe = atoi(kind + 5);
+		else if (kind[0] == 'c') vf_cap = (size_t)strtoul(kind + 4, 0, 10);
 		else if (kind[1] == 'a') { fa = strtol(kind + 3, 0, 10); vf_fail_at = fa >= 0 ? vf_allocs + fa : -1; }
 		else g_full = 1;
 		kind = nx(&k);
@@ -1449,6 +1493,8 @@ static void process_line(char* line, SB* s)
 	else if (!strcmp(kind, "frw")) sc_fr(s, &k, 1);
 	else if (!strcmp(kind, "fw")) sc_fw(s, &k);
 	else { fprintf(stderr, "harness: unknown scenario %s\n", kind); exit(4); }
+	if (g_f != g_ftmp) { fclose(g_f); g_f = g_ftmp; }
+	g_pipe = 0;
 	if (fa != -2)
 	{
 		/* allocation-fault mode: how many allocation calls the scenario made, whether the fault fired */
